@@ -2,7 +2,7 @@
 use crate::api::st;
 use crate::pairs::{dense_deltas, PairPlan};
 use crate::run::{api, Local, Runner, Verdict};
-use crate::util::show_dd;
+use crate::util::{hexf, show_dd};
 use serde_json::json;
 use tfref::alpha::{dd_alpha, gen_fracs, run_bounded, run_bounded_at, weyl_fracs, DdSpec};
 use tfref::big::Dy;
@@ -289,6 +289,48 @@ pub fn run(r: &mut Runner) {
             }
         }
     });
+    {
+        // longer sequences over a cancellation alphabet: terms of both signs at scales 2^107, 2^53, 1, 2^-53,
+        // 2^-110, so that large partial sums cancel and later small terms (and earlier rounding errors) decide
+        // the result; a summation scheme other than the left fold with `+` (cascaded, pairwise, sorted) differs here
+        let p = |k: i32| 2f64.powi(k);
+        let his = [0.0, 1.0, -1.0, p(53) + 2.0, -(p(53) + 2.0), 1.5 * p(-53), -1.5 * p(-53), p(107) * (1.0 + p(-52)), -p(107) * (1.0 + p(-52)), core::f64::consts::PI, -core::f64::consts::PI * p(-60), 1.0 + p(-52), -(1.0 + p(-52)), 0.1 * p(-110)];
+        let canc: Vec<[f64; 2]> = his.iter().map(|&h| [h, h * p(-54) * 1.25]).collect();
+        assert!(canc.iter().all(|w| tfref::big::dd_valid(w[0], w[1])));
+        let n = canc.len();
+        let maxlen = if quick { 6 } else { 8 };
+        let mut total = 0usize;
+        for len in 4..=maxlen {
+            total += n.pow(len as u32);
+        }
+        r.notes.push(format!("sum==fold, cancellation alphabet: ALL sequences of length 4..={} over {} terms (scales 2^107 .. 2^-113, both signs) = {} sequences x 2 item types x by-value/by-reference", maxlen, n, total));
+        r.add_sample(json!({"call": "sum_f64", "sequence": [hexf(his[7]), hexf(his[2]), hexf(his[8]), hexf(his[5]), hexf(his[13])], "family": "cancellation alphabet"}));
+        r.par("sum==fold (cancellation alphabet)", total.div_ceil(16384).max(1), 2 * total as u64, |c, l| {
+            let lo = c * 16384;
+            let hi = ((c + 1) * 16384).min(total);
+            for t in lo..hi {
+                let mut rem = t;
+                let mut len = 4;
+                loop {
+                    let cnt = n.pow(len as u32);
+                    if rem < cnt {
+                        break;
+                    }
+                    rem -= cnt;
+                    len += 1;
+                }
+                let mut seq = Vec::with_capacity(len);
+                for _ in 0..len {
+                    seq.push(canc[rem % n]);
+                    rem /= n;
+                }
+                for kind in 0..2 {
+                    let v = judge_sum(kind, &seq);
+                    rec.record(l, (3u64 << 60) + (t as u64) * 2 + kind as u64, v);
+                }
+            }
+        });
+    }
     {
         // generic stream: both operands with full-size mantissas in both words; the second operand's exponent is
         // tied to the first one's (offsets -3..3) so that the words interact
